@@ -703,6 +703,133 @@ def docErrors (d : Doc) : List (MLoc × MErr) :=
         (timelineErrors r.ownTemplate).map (fun e => (MLoc.repTimeline pi ai ri, e)) ++
         (repAttrErrors d (r.ownTemplate <|> a.template) r).map fun e => (MLoc.representation pi ai ri, e)
 
+/-! ## the table of attributes the validator requires
+
+One row per (element, attribute, mode) whose absence the validator reports, with the error and
+the class of element the error is located at.  The corruption catalogue's "mandatory attribute
+removed" kind is *enumerated* from this table (driver channel `vattrs`), and
+`Props/C18.lean` proves by `decide` that the removal of every row from a manifest shaped like the
+server's yields the stated error at the stated place. -/
+
+inductive Elem
+  | mpd | period | adaptationSet | representation | segmentTemplate | s
+  deriving DecidableEq, Repr
+
+/-- where the error is attached, relative to the element that lost the attribute -/
+inductive LocKind
+  | mpd | period | adaptationSet | representation | timeline
+  deriving DecidableEq, Repr
+
+structure AttrReq where
+  elem : Elem
+  attr : String
+  /-- the mode in which the attribute is required: `true` live (dynamic), `false` vod (static) -/
+  live : Bool
+  /-- `some true`: only manifests with a SegmentTimeline have it, `some false`: only those without -/
+  timeline : Option Bool
+  loc : LocKind
+  err : MErr
+  deriving DecidableEq, Repr
+
+def mandatoryAttrs : List AttrReq :=
+  let both (f : Bool → AttrReq) : List AttrReq := [f true, f false]
+  [ { elem := .mpd, attr := "type", live := true, timeline := none, loc := .mpd, err := .mpdType },
+    { elem := .mpd, attr := "availabilityStartTime", live := true, timeline := none, loc := .mpd,
+      err := .availabilityStartTime },
+    { elem := .mpd, attr := "availabilityStartTime", live := true, timeline := none, loc := .representation,
+      err := .repAst },
+    { elem := .mpd, attr := "timeShiftBufferDepth", live := true, timeline := none, loc := .mpd,
+      err := .timeShiftBufferDepth },
+    { elem := .mpd, attr := "timeShiftBufferDepth", live := true, timeline := none, loc := .representation,
+      err := .repTsbd },
+    { elem := .mpd, attr := "mediaPresentationDuration", live := false, timeline := none, loc := .mpd,
+      err := .durationMissing },
+    { elem := .period, attr := "id", live := true, timeline := none, loc := .period, err := .periodId } ] ++
+  both (fun l => { elem := .mpd, attr := "profiles", live := l, timeline := none, loc := .mpd, err := .profiles }) ++
+  both (fun l => { elem := .mpd, attr := "minBufferTime", live := l, timeline := none, loc := .mpd,
+                   err := .minBufferTime }) ++
+  both (fun l => { elem := .adaptationSet, attr := "mimeType", live := l, timeline := none, loc := .adaptationSet,
+                   err := .adpMimeType }) ++
+  both (fun l => { elem := .representation, attr := "id", live := l, timeline := none, loc := .representation,
+                   err := .repId }) ++
+  both (fun l => { elem := .representation, attr := "bandwidth", live := l, timeline := none,
+                   loc := .representation, err := .repBandwidth }) ++
+  both (fun l => { elem := .segmentTemplate, attr := "media", live := l, timeline := none,
+                   loc := .representation, err := .media }) ++
+  both (fun l => { elem := .segmentTemplate, attr := "initialization", live := l, timeline := none,
+                   loc := .representation, err := .initialization }) ++
+  both (fun l => { elem := .segmentTemplate, attr := "duration", live := l, timeline := some false,
+                   loc := .representation, err := .tmplDuration }) ++
+  both (fun l => { elem := .s, attr := "d", live := l, timeline := some true, loc := .timeline, err := .sDuration }) ++
+  both (fun l => { elem := .s, attr := "t", live := l, timeline := some true, loc := .timeline, err := .sStart })
+
+/-- a manifest shaped like the server's: one Period, one AdaptationSet with the SegmentTemplate,
+one Representation; `timeline` chooses `$Time$` + SegmentTimeline or `$Number$` + `@duration` -/
+def canonicalDoc (live timeline : Bool) : Doc :=
+  { live := live, hasProfiles := true, hasMinBufferTime := true,
+    typeDynamic := some live, hasAst := live, hasTsbd := live, hasMup := live,
+    mpdDuration := if live then none else some true, nPatches := 0,
+    periods := [{ hasId := true, hasDuration := false, adps := [
+      { hasMimeType := true,
+        template := some { hasMedia := true, hasInit := true, hasDuration := !timeline,
+                           timeline := if timeline then
+                             some [{ t := some 0, d := some 960, r := 3 }, { t := none, d := some 480, r := 0 }]
+                           else none },
+        reps := [{ hasId := true, hasBandwidth := true, hasMimeType := true }] }] }] }
+
+def mapFirst {α : Type} (f : α → α) : List α → List α
+  | [] => []
+  | x :: xs => f x :: xs
+
+def mapPeriod (f : PeriodAttrs → PeriodAttrs) (d : Doc) : Doc := { d with periods := mapFirst f d.periods }
+
+def mapAdp (f : AdpAttrs → AdpAttrs) (d : Doc) : Doc :=
+  mapPeriod (fun p => { p with adps := mapFirst f p.adps }) d
+
+def mapRep (f : RepAttrs → RepAttrs) (d : Doc) : Doc :=
+  mapAdp (fun a => { a with reps := mapFirst f a.reps }) d
+
+def mapTemplate (f : TemplateAttrs → TemplateAttrs) (d : Doc) : Doc :=
+  mapAdp (fun a => { a with template := a.template.map f }) d
+
+def mapFirstS (f : SElem → SElem) (d : Doc) : Doc :=
+  mapTemplate (fun t => { t with timeline := t.timeline.map (mapFirst f) }) d
+
+/-- the document with the attribute of the row removed (from the first element of its kind) -/
+def removeAttr (r : AttrReq) (d : Doc) : Doc :=
+  match r.elem, r.attr with
+  | .mpd, "type" => { d with typeDynamic := none }
+  | .mpd, "profiles" => { d with hasProfiles := false }
+  | .mpd, "minBufferTime" => { d with hasMinBufferTime := false }
+  | .mpd, "availabilityStartTime" => { d with hasAst := false }
+  | .mpd, "timeShiftBufferDepth" => { d with hasTsbd := false }
+  | .mpd, "mediaPresentationDuration" => { d with mpdDuration := none }
+  | .period, "id" => mapPeriod (fun p => { p with hasId := false }) d
+  | .adaptationSet, "mimeType" => mapAdp (fun a => { a with hasMimeType := false }) d
+  | .representation, "id" => mapRep (fun x => { x with hasId := false }) d
+  | .representation, "bandwidth" => mapRep (fun x => { x with hasBandwidth := false }) d
+  | .segmentTemplate, "media" => mapTemplate (fun t => { t with hasMedia := false }) d
+  | .segmentTemplate, "initialization" => mapTemplate (fun t => { t with hasInit := false }) d
+  | .segmentTemplate, "duration" => mapTemplate (fun t => { t with hasDuration := false }) d
+  | .s, "d" => mapFirstS (fun s => { s with d := none }) d
+  | .s, "t" => mapFirstS (fun s => { s with t := none }) d
+  | _, _ => d
+
+/-- the location of the row's error in a canonical document -/
+def AttrReq.mloc (r : AttrReq) : MLoc :=
+  match r.loc with
+  | .mpd => .mpd
+  | .period => .period 0
+  | .adaptationSet => .adaptationSet 0 0
+  | .representation => .representation 0 0 0
+  | .timeline => .timeline 0 0
+
+/-- the rows that apply to a manifest of the given mode and addressing -/
+def AttrReq.appliesTo (r : AttrReq) (live timeline : Bool) : Bool :=
+  r.live == live && (match r.timeline with
+    | none => true
+    | some t => t == timeline)
+
 /-! ## checks across a manifest refresh (validator.py:239-255) -/
 
 inductive RefreshErr
